@@ -13,6 +13,7 @@ import (
 	osexec "os/exec"
 	"path/filepath"
 	"regexp"
+	"runtime/pprof"
 	"sort"
 	"strconv"
 	"strings"
@@ -167,10 +168,10 @@ func buildUnit(u *Unit, specDir string) (*builtUnit, error) {
 	}
 	for _, tr := range u.Transforms {
 		p := filepath.Join(bu.pkgDir, tr.File)
-		if filepath.IsAbs(tr.File) {
-			p = tr.File
-		} else if strings.HasPrefix(tr.File, "//") {
+		if strings.HasPrefix(tr.File, "//") {
 			p = filepath.Join(repoDir, tr.File[2:])
+		} else if filepath.IsAbs(tr.File) {
+			p = tr.File
 		}
 		src, ok := bu.engine[p]
 		if !ok {
@@ -519,6 +520,9 @@ func check(id, tier string) int {
 			if b.Skip {
 				continue
 			}
+			if only := os.Getenv("GOSYM_ONLY"); only != "" && !has(strings.Split(only, ","), h.Entry) {
+				continue
+			}
 			if prog == nil {
 				prog, err = exec.Load(exec.Config{Dir: filepath.Join(repoDir, u.Dir), Pkg: u.Pkg, Overlay: bu.engine,
 					Redirects: u.Redirects, Noops: u.Noops, Merges: u.Merges, DenyInit: u.DenyInit, Env: u.Env,
@@ -535,6 +539,9 @@ func check(id, tier string) int {
 			}
 			opts := exec.ExploreOpts{Entry: h.Entry, MaxPaths: b.MaxPaths, Alloc: b.Alloc, Seed: int64(seed),
 				Limits: exec.Limits{MaxSteps: b.MaxSteps, Preemptions: b.Preemptions, TimerFires: b.TimerFires, WantWitness: want, Params: b.Params}}
+			if v := os.Getenv("GOSYM_MAXRUNS"); v != "" {
+				opts.MaxPaths, _ = strconv.Atoi(v)
+			}
 			if b.DeadlineS > 0 {
 				opts.Deadline = time.Now().Add(time.Duration(b.DeadlineS) * time.Second)
 			}
@@ -568,6 +575,23 @@ func check(id, tier string) int {
 			totalDecisions += rep.Decisions
 			fmt.Printf("harness %s/%s: paths=%d infeasible=%d violation-ends=%d runs=%d decisions=%d queries sat=%d unsat=%d unknown=%d solver=%.1fs wall=%.1fs\n",
 				u.Name, h.Entry, rep.Paths, rep.Infeasible, rep.ViolationEnds, rep.TotalRuns, rep.Decisions, rep.Queries.Sat, rep.Queries.Unsat, rep.Queries.Unknown, rep.Queries.Time.Seconds(), rep.Wall.Seconds())
+			if len(rep.ForkSites) > 0 {
+				type kv struct {
+					k string
+					n int
+				}
+				var kvs []kv
+				for k, n := range rep.ForkSites {
+					kvs = append(kvs, kv{k, n})
+				}
+				sort.Slice(kvs, func(i, j int) bool { return kvs[i].n > kvs[j].n })
+				for i, e := range kvs {
+					if i >= 15 {
+						break
+					}
+					fmt.Printf("  fork-site %6d  %s\n", e.n, e.k)
+				}
+			}
 			// completeness of the run at its bound
 			bad := func(kind string, mm map[string]int) {
 				for msg, n := range mm {
@@ -679,7 +703,7 @@ func check(id, tier string) int {
 					continue
 				}
 				if !confirms(rs, r) {
-					fmt.Printf("UNCONFIRMED property=%s harness=%s label=%s: native outcome=%s failed=%v msg=%s\n", id, rs.Entry, rs.Label, r.Outcome, r.Failed, r.Msg)
+					fmt.Printf("UNCONFIRMED property=%s harness=%s label=%s (engine: %s): native outcome=%s failed=%v msg=%s\n  inputs: %s\n", id, rs.Entry, rs.Label, rs.Msg, r.Outcome, r.Failed, r.Msg, compactScript(rs.Script))
 					unconfirmed++
 					continue
 				}
@@ -902,9 +926,20 @@ func replay(path string) int {
 }
 
 func main() {
+	if pf := os.Getenv("GOSYM_PROF"); pf != "" {
+		f, _ := os.Create(pf)
+		pprof.StartCPUProfile(f)
+		defer pprof.StopCPUProfile()
+	}
+	code := realMain()
+	pprof.StopCPUProfile()
+	os.Exit(code)
+}
+
+func realMain() int {
 	if len(os.Args) < 2 {
 		fmt.Println("usage: gosym check <id> <tier> | replay <script> | selftest")
-		os.Exit(2)
+		return 2
 	}
 	switch os.Args[1] {
 	case "check":
@@ -915,11 +950,11 @@ func main() {
 		if t := os.Getenv("VERIF_TIER"); t == "quick" || t == "thorough" {
 			tier = t
 		}
-		os.Exit(check(os.Args[2], tier))
+		return check(os.Args[2], tier)
 	case "replay":
-		os.Exit(replay(os.Args[2]))
+		return replay(os.Args[2])
 	default:
 		fmt.Println("unknown command", os.Args[1])
-		os.Exit(2)
+		return 2
 	}
 }
